@@ -187,7 +187,7 @@ WireFtpWarc == {
   <<"fw_data_reset", "f_data_read", "OSError">>, <<"fw_greeting_421", "f_reply_code", "FTPServerError">> }
 WireFtpOptions == {
   <<"fo_mlsd_symlink", "none", "none">>, <<"fo_timestamping_second_run", "none", "none">>,
-  <<"fo_new_directory_file_url", "none", "none">>, <<"fo_no_remove_listing", "none", "none">>, <<"fo_no_glob", "none", "none">>}
+  <<"fo_new_directory_file_url", "none", "none">>, <<"fo_no_remove_listing", "none", "none">>, <<"fo_no_glob", "none", "none">>, <<"fo_save_headers", "none", "none">>}
 WireHttpWarc == {
   <<"hw_ok", "none", "none">>, <<"hw_connect_refused", "h_connect", "OSConnRefused">>,
   <<"hw_reset_in_header", "h_hdr_readline", "OSError">>, <<"hw_garbage", "h_status_parse", "ProtocolError">> }
